@@ -20,15 +20,6 @@ Proof.
   rewrite E. intros H. inversion H as [|? ? H3 _]. apply H3. left. reflexivity.
 Qed.
 
-(* add_abstract_suffix never checks that "<name>_abstract" is free *)
-Theorem classes_distinct_abstract_suffix_refuted :
-  ~ NoDup (map (fun c => alnum (c_name c)) (rename_duplicate_classes true [cl "A" true; cl "a" false; cl "A_abstract" false])).
-Proof.
-  assert (E : map (fun c => alnum (c_name c)) (rename_duplicate_classes true [cl "A" true; cl "a" false; cl "A_abstract" false])
-              = [Safe.lit "aabstract"; Safe.lit "a"; Safe.lit "aabstract"]) by (vm_compute; reflexivity).
-  rewrite E. intros H. inversion H as [|? ? H3 _]. apply H3. right. left. reflexivity.
-Qed.
-
 (* positive part: whenever the renamed class slugs are distinct and no adjusted name lands on
    another class's slug, the final class names are distinct (any convention, any valid prefix) *)
 Theorem classes_distinct_after_rename p k (names : list str) :
@@ -155,3 +146,44 @@ Proof.
     + right. fold (cget (cset_name p new_name l) i) in Ei. rewrite cget_cset_other in Ei by exact Hne.
       apply Hcover. rewrite <- Ei. apply in_map. apply nth_In. exact Hi.
 Qed.
+
+(* add_abstract_suffix (fix 5e6ea57): same statement *)
+Theorem abstract_suffix_fresh u l res p :
+  (p < List.length l)%nat -> res_ok u l res ->
+  let st' := add_abstract_suffix u (l, res) p in
+  ~ In (c_cmp u (cget (fst st') p)) (map (c_cmp u) l) /\
+  (forall i, i <> p -> cget (fst st') i = cget l i) /\
+  res_ok u (fst st') (snd st').
+Proof.
+  intros Hp Hok. unfold add_abstract_suffix.
+  set (reserved := match res with Some [] | None => map (c_cmp u) l | Some r => r end).
+  assert (Hcover : incl (map (c_cmp u) l) reserved).
+  { unfold reserved. destruct res as [[|x r]|]; try apply incl_refl. exact Hok. }
+  set (base := c_name (cget l p) ++ Safe.lit "_abstract").
+  assert (Fin : forall nn, ~ In (alnum (if u then nn else build_qname (c_ns (cget l p)) nn)) reserved ->
+     let st' := (cset_name p nn l, Some (alnum (if u then nn else build_qname (c_ns (cget l p)) nn) :: reserved)) in
+     ~ In (c_cmp u (cget (fst st') p)) (map (c_cmp u) l) /\
+     (forall i, i <> p -> cget (fst st') i = cget l i) /\ res_ok u (fst st') (snd st')).
+  { intros nn Hfresh. cbn zeta. cbn [fst snd].
+    destruct (cget_cset_same p nn l Hp) as [En Ens].
+    assert (Ecmp : c_cmp u (cget (cset_name p nn l) p) = alnum (if u then nn else build_qname (c_ns (cget l p)) nn)).
+    { unfold c_cmp, c_qname. rewrite En, Ens. reflexivity. }
+    split; [|split].
+    - rewrite Ecmp. intros Hin. apply Hfresh. apply Hcover. exact Hin.
+    - intros i Hi. apply cget_cset_other. exact Hi.
+    - cbn [res_ok]. intros x Hx. apply in_map_iff in Hx as [c [<- Hc]].
+      apply (In_nth _ _ dummy_cls) in Hc as [i [Hi Ei]]. rewrite cset_name_length in Hi.
+      destruct (Nat.eq_dec i p) as [->|Hne].
+      + left. fold (cget (cset_name p nn l) p) in Ei. rewrite <- Ei. symmetry. exact Ecmp.
+      + right. fold (cget (cset_name p nn l) i) in Ei. rewrite cget_cset_other in Ei by exact Hne.
+        apply Hcover. rewrite <- Ei. apply in_map. apply nth_In. exact Hi. }
+  destruct (str_in (alnum (if u then base else build_qname (c_ns (cget l p)) base)) reserved) eqn:Etaken.
+  - destruct (next_index_total u (c_ns (cget l p)) base reserved) as [j Hj]. rewrite Hj.
+    apply Fin. pose proof (next_index_sound _ _ _ _ _ _ _ Hj) as Hs. apply str_in_false in Hs. exact Hs.
+  - apply Fin. apply str_in_false. exact Etaken.
+Qed.
+
+Example abstract_witness_now_distinct :
+  map c_name (rename_duplicate_classes true [cl "A" true; cl "a" false; cl "A_abstract" false])
+  = [Safe.lit "A_abstract_1"; Safe.lit "a"; Safe.lit "A_abstract"].
+Proof. vm_compute. reflexivity. Qed.
